@@ -363,8 +363,9 @@ impl WorldC {
                 let m = json!({"send":{"contract": self.group, "amount": amt.to_string(), "msg": Binary::from(br#"{"bond":{}}"#.to_vec()).to_base64()}});
                 return Step::Tx { sender: user, target: "token".into(), msg: m, funds: vec![], fault, script };
             }
-            let funds = match rng.below(14) {
+            let funds = match rng.below(16) {
                 0 => vec![(DEP_DENOM.to_string(), amt.to_string())],
+                14 | 15 => vec![(STAKE_DENOM.to_uppercase(), amt.min(1_000_000).to_string())], // a different bank denom that only looks alike
                 1 => vec![(STAKE_DENOM.to_string(), amt.to_string()), (DEP_DENOM.to_string(), "1".to_string())],
                 2 => vec![],
                 _ => vec![(STAKE_DENOM.to_string(), amt.to_string())],
@@ -985,6 +986,7 @@ impl World for WorldC {
                     Coin::new(big, STAKE_DENOM),
                     Coin::new(1_000_000u128, DEP_DENOM),
                     Coin::new(1_000_000u128, PAY_DENOM),
+                    Coin::new(1_000_000_000u128, STAKE_DENOM.to_uppercase()),
                 ],
             );
         }
